@@ -34,7 +34,7 @@ theorem rr_one (c : Chan PS) (req r : Bytes) (s' : SS) (c0 : Nat) (rt : Bytes)
 
 /-- the strict server on a well-formed download segment (`last` = flagged as last) -/
 theorem ss_downSeg (s : SS) (declared : Option Nat) (buf chunk : Bytes) (tg last : Bool)
-    (hph : s.phase = .down declared buf tg) (hill : s.illegal = none) (hc : chunk.length ≤ 7)
+    (hph : s.phase = .down declared buf tg) (hc : chunk.length ≤ 7)
     (hdecl : ∀ d, declared = some d → (buf ++ chunk).length ≤ d ∧ (last = true → d = (buf ++ chunk).length))
     (hne : last = false → chunk.length ≠ 0) :
     ssStep s (segDownCmd (tb tg) chunk.length last :: padTo 7 chunk) =
@@ -65,7 +65,7 @@ theorem ss_downSeg (s : SS) (declared : Option Nat) (buf chunk : Bytes) (tg last
 
 /-- one raw `write(b)` of a segmented download against the strict server, fully evaluated -/
 theorem wsWrite_seg (c : Chan PS) (w : WS) (b : Bytes) (declared : Option Nat) (buf : Bytes) (tg : Bool)
-    (hph : c.peer.1.phase = .down declared buf tg) (hill : c.peer.1.illegal = none)
+    (hph : c.peer.1.phase = .down declared buf tg)
     (hexp : w.expHeader = none) (hnd : w.done = false) (htg : w.toggle = tb tg)
     (hpos : w.pos = buf.length) (hsz : w.size = declared) (hb : b ≠ [])
     (hdecl : ∀ d, declared = some d → buf.length + min b.length 7 ≤ d) :
@@ -88,7 +88,7 @@ theorem wsWrite_seg (c : Chan PS) (w : WS) (b : Bytes) (declared : Option Nat) (
     | nil => exact absurd rfl hb
     | cons x xs => simp
   have hstep := ss_downSeg c.peer.1 declared buf (b.take (min b.length 7)) tg
-    (reachesSize declared (buf.length + min b.length 7)) hph hill hc
+    (reachesSize declared (buf.length + min b.length 7)) hph hc
     (by
       intro d hd
       have h1 := hdecl d hd
@@ -114,7 +114,7 @@ theorem take_take_min (rem : Bytes) (k : Nat) :
 /-- outcome of feeding the payload through raw writes: either the declared size was reached (the
     server has committed) or the stream is still open with everything delivered -/
 def FeedDone (payload : Bytes) (mux : Nat × Nat) (declared : Option Nat) (c c' : Chan PS) (w' : WS) : Prop :=
-  c'.peer.1.illegal = none ∧ c'.peer.1.mux = mux ∧ w'.expHeader = none ∧ w'.size = declared ∧
+  c'.peer.1.illegal = c.peer.1.illegal ∧ c'.peer.1.mux = mux ∧ w'.expHeader = none ∧ w'.size = declared ∧
   c'.peer.1.style = c.peer.1.style ∧
   ((w'.done = true ∧ c'.peer.1.phase = .idle ∧
       c'.peer.1.commits = c.peer.1.commits ++ [(mux, payload)] ∧
@@ -125,21 +125,21 @@ def FeedDone (payload : Bytes) (mux : Nat × Nat) (declared : Option Nat) (c c' 
 theorem wsFeed_seg (payload : Bytes) (mux : Nat × Nat) (declared : Option Nat)
     (hd : declared = none ∨ declared = some payload.length) :
     ∀ (fuel : Nat) (c : Chan PS) (w : WS) (rem : Bytes) (offers : List Nat) (buf : Bytes) (tg : Bool),
-      c.peer.1.phase = .down declared buf tg → c.peer.1.illegal = none → c.peer.1.mux = mux →
+      c.peer.1.phase = .down declared buf tg → c.peer.1.mux = mux →
       w.expHeader = none → w.done = false → w.toggle = tb tg → w.pos = buf.length → w.size = declared →
       buf ++ rem = payload → rem.length < fuel →
       ∃ c' w', wsFeed specPeer fuel c w rem offers = (c', .ok w') ∧ FeedDone payload mux declared c c' w' := by
   intro fuel
   induction fuel with
-  | zero => intro c w rem offers buf tg _ _ _ _ _ _ _ _ _ hf; omega
+  | zero => intro c w rem offers buf tg _ _ _ _ _ _ _ _ hf; omega
   | succ fuel ih =>
-    intro c w rem offers buf tg hph hill hmux hexp hnd htg hpos hsz hacc hf
+    intro c w rem offers buf tg hph hmux hexp hnd htg hpos hsz hacc hf
     unfold wsFeed
     by_cases hre : rem.isEmpty
     · have : rem = [] := by simpa using hre
       subst this
       simp only [List.isEmpty_nil, if_true]
-      refine ⟨c, w, rfl, hill, hmux, hexp, hsz, rfl, Or.inr ⟨hnd, rfl, rfl, tg, ?_, htg⟩⟩
+      refine ⟨c, w, rfl, rfl, hmux, hexp, hsz, rfl, Or.inr ⟨hnd, rfl, rfl, tg, ?_, htg⟩⟩
       rw [hph]; simp at hacc; rw [hacc]
     · have hrne : rem ≠ [] := by simpa using hre
       have hrl : 1 ≤ rem.length := by
@@ -161,7 +161,7 @@ theorem wsFeed_seg (payload : Bytes) (mux : Nat × Nat) (declared : Option Nat)
       have hsent1 : 1 ≤ min (rem.take k).length 7 := by rw [hbl]; omega
       have hsentle : min (rem.take k).length 7 ≤ rem.length := by rw [hbl]; omega
       have hplen : payload.length = buf.length + rem.length := by rw [← hacc]; simp
-      have hw := wsWrite_seg c w (rem.take k) declared buf tg hph hill hexp hnd htg hpos hsz hbne
+      have hw := wsWrite_seg c w (rem.take k) declared buf tg hph hexp hnd htg hpos hsz hbne
         (by intro d hd'
             rcases hd with h | h
             · rw [h] at hd'; cases hd'
@@ -190,7 +190,7 @@ theorem wsFeed_seg (payload : Bytes) (mux : Nat × Nat) (declared : Option Nat)
         | succ f =>
           unfold wsFeed
           simp only [List.isEmpty_nil, if_true]
-          refine ⟨_, _, rfl, hill, hmux, hexp, hsz, rfl, Or.inl ⟨rfl, rfl, ?_, ?_⟩⟩
+          refine ⟨_, _, rfl, rfl, hmux, hexp, hsz, rfl, Or.inl ⟨rfl, rfl, ?_, ?_⟩⟩
           · simp [hmux]
           · simp [hmux]
       · have hl' : reachesSize declared (buf.length + sent) = false := by simpa using hlast
@@ -200,7 +200,7 @@ theorem wsFeed_seg (payload : Bytes) (mux : Nat × Nat) (declared : Option Nat)
                      queue := [],
                      sent := c.sent ++ [segDownCmd (tb tg) sent false :: padTo 7 (rem.take sent)] }
           { w with toggle := tb (!tg), done := false, pos := buf.length + sent } (rem.drop sent) offers.tail
-          (buf ++ rem.take sent) (!tg) rfl hill hmux hexp rfl rfl
+          (buf ++ rem.take sent) (!tg) rfl hmux hexp rfl rfl
           (by simp only [List.length_append, List.length_take]; omega) hsz
           (by rw [List.append_assoc, List.take_append_drop]; exact hacc)
           (by simp only [List.length_drop]; omega)
@@ -220,7 +220,7 @@ theorem muxB_getD (idx sub : Nat) (c0 : Nat) (rest : Bytes) (hidx : idx < 65536)
 
 /-- the strict server on the client's segmented download initiate -/
 theorem ss_downInit (s : SS) (idx sub : Nat) (size : Option Nat) (hidx : idx < 65536) (hsub : sub < 256)
-    (hill : s.illegal = none) (hsz : ∀ n, size = some n → n < 2 ^ 32) :
+    (hsz : ∀ n, size = some n → n < 2 ^ 32) :
     ssStep s ((REQUEST_DOWNLOAD ||| (if size.isSome then SIZE_SPECIFIED else 0)) ::
         (muxB idx sub ++ sizeField size)) =
       ({ s with phase := .down size [] false, mux := (idx, sub) },
@@ -243,7 +243,7 @@ theorem ss_downInit (s : SS) (idx sub : Nat) (size : Option Nat) (hidx : idx < 6
 
 /-- `WritableStream.__init__` for a segmented download against the strict server -/
 theorem wsInit_seg (c : Chan PS) (idx sub : Nat) (size : Option Nat) (force : Bool)
-    (hidx : idx < 65536) (hsub : sub < 256) (hill : c.peer.1.illegal = none)
+    (hidx : idx < 65536) (hsub : sub < 256)
     (hsz : ∀ n, size = some n → n < 2 ^ 32)
     (hseg : isSegmented size force = true) :
     wsInit specPeer c idx sub size force =
@@ -253,7 +253,7 @@ theorem wsInit_seg (c : Chan PS) (idx sub : Nat) (size : Option Nat) (force : Bo
          sent := c.sent ++ [(REQUEST_DOWNLOAD ||| (if size.isSome then SIZE_SPECIFIED else 0)) ::
            (muxB idx sub ++ sizeField size)] },
        .ok { size := size, pos := 0, toggle := 0, expHeader := none, done := false }) := by
-  have hstep := ss_downInit c.peer.1 idx sub size hidx hsub hill hsz
+  have hstep := ss_downInit c.peer.1 idx sub size hidx hsub hsz
   have hrr := rr_one c _ _ _ 0x60 _ hstep rfl resp_fields.1.1
   unfold wsInit
   simp only [hseg, if_true]
@@ -262,7 +262,7 @@ theorem wsInit_seg (c : Chan PS) (idx sub : Nat) (size : Option Nat) (force : Bo
 
 /-- `close()` of an unfinished segmented download: the empty last segment commits what was sent -/
 theorem wsClose_open (c : Chan PS) (w : WS) (declared : Option Nat) (buf : Bytes) (tg : Bool)
-    (hph : c.peer.1.phase = .down declared buf tg) (hill : c.peer.1.illegal = none)
+    (hph : c.peer.1.phase = .down declared buf tg)
     (hexp : w.expHeader = none) (hnd : w.done = false) (htg : w.toggle = tb tg)
     (hdecl : ∀ d, declared = some d → d = buf.length) :
     ∃ c', wsClose specPeer c w = (c', .ok { w with done := true }) ∧
@@ -270,7 +270,7 @@ theorem wsClose_open (c : Chan PS) (w : WS) (declared : Option Nat) (buf : Bytes
                                   commits := c.peer.1.commits ++ [(c.peer.1.mux, buf)] } := by
   have hcmd : (REQUEST_SEGMENT_DOWNLOAD ||| NO_MORE_DATA ||| tb tg ||| (7 <<< 1)) = segDownCmd (tb tg) 0 true := by
     cases tg <;> decide
-  have hstep := ss_downSeg c.peer.1 declared buf [] tg true hph hill (by simp)
+  have hstep := ss_downSeg c.peer.1 declared buf [] tg true hph (by simp)
     (by intro d hd; have := hdecl d hd; simp; omega) (by intro h; cases h)
   simp only [List.length_nil, padTo, List.nil_append, Nat.sub_zero, List.append_nil, if_true] at hstep
   obtain ⟨r1, r2⟩ := resp_fields.2 tg
@@ -282,7 +282,7 @@ theorem wsClose_open (c : Chan PS) (w : WS) (declared : Option Nat) (buf : Bytes
 
 /-- the strict server on the client's expedited download request -/
 theorem ss_downExp (s : SS) (idx sub : Nat) (data : Bytes) (hidx : idx < 65536) (hsub : sub < 256)
-    (hill : s.illegal = none) (h1 : 1 ≤ data.length) (h4 : data.length ≤ 4) :
+    (h1 : 1 ≤ data.length) (h4 : data.length ≤ 4) :
     ssStep s (((REQUEST_DOWNLOAD ||| EXPEDITED ||| SIZE_SPECIFIED ||| ((4 - data.length) <<< 2)) :: muxB idx sub)
         ++ padTo 4 data) =
       ({ s with phase := .idle, mux := (idx, sub), held := ((idx, sub), data) :: s.held,
@@ -298,7 +298,7 @@ theorem ss_downExp (s : SS) (idx sub : Nat) (data : Bytes) (hidx : idx < 65536) 
 
 /-- the single raw write that carries an expedited download -/
 theorem wsWrite_exp (c : Chan PS) (w : WS) (idx sub : Nat) (payload : Bytes)
-    (hidx : idx < 65536) (hsub : sub < 256) (hill : c.peer.1.illegal = none)
+    (hidx : idx < 65536) (hsub : sub < 256)
     (h1 : 1 ≤ payload.length) (h4 : payload.length ≤ 4) (hnd : w.done = false)
     (hsz : w.size = some payload.length)
     (hexp : w.expHeader = some ((REQUEST_DOWNLOAD ||| EXPEDITED ||| SIZE_SPECIFIED |||
@@ -312,7 +312,7 @@ theorem wsWrite_exp (c : Chan PS) (w : WS) (idx sub : Nat) (payload : Bytes)
          sent := c.sent ++ [((REQUEST_DOWNLOAD ||| EXPEDITED ||| SIZE_SPECIFIED |||
            ((4 - payload.length) <<< 2)) :: muxB idx sub) ++ padTo 4 payload] },
        .ok ({ w with done := true, pos := w.pos + payload.length }, payload.length)) := by
-  have hstep := ss_downExp c.peer.1 idx sub payload hidx hsub hill h1 h4
+  have hstep := ss_downExp c.peer.1 idx sub payload hidx hsub h1 h4
   have hrr := rr_one c _ _ _ 0x60 _ hstep rfl resp_fields.1.1
   have hn1 : ¬ payload.length < payload.length := by omega
   have hn2 : ¬ payload.length > 4 := by omega
@@ -325,7 +325,7 @@ theorem wsWrite_exp (c : Chan PS) (w : WS) (idx sub : Nat) (payload : Bytes)
 theorem wsFeed_exp (idx sub : Nat) (payload : Bytes) (hidx : idx < 65536) (hsub : sub < 256)
     (h1 : 1 ≤ payload.length) (h4 : payload.length ≤ 4) :
     ∀ (offers : List Nat) (fuel : Nat) (c : Chan PS) (w : WS),
-      c.peer.1.illegal = none → w.done = false → w.size = some payload.length →
+      w.done = false → w.size = some payload.length →
       w.expHeader = some ((REQUEST_DOWNLOAD ||| EXPEDITED ||| SIZE_SPECIFIED |||
         ((4 - payload.length) <<< 2)) :: muxB idx sub) →
       offers.length + 2 ≤ fuel →
@@ -337,7 +337,7 @@ theorem wsFeed_exp (idx sub : Nat) (payload : Bytes) (hidx : idx < 65536) (hsub 
   intro offers
   induction offers with
   | nil =>
-    intro fuel c w hill hnd hsz hexp hf
+    intro fuel c w hnd hsz hexp hf
     obtain ⟨f, rfl⟩ : ∃ f, fuel = f + 2 := ⟨fuel - 2, by omega⟩
     have hne : payload.isEmpty = false := by
       cases payload with
@@ -345,13 +345,13 @@ theorem wsFeed_exp (idx sub : Nat) (payload : Bytes) (hidx : idx < 65536) (hsub 
       | cons x xs => rfl
     unfold wsFeed
     simp only [hne, Bool.false_eq_true, if_false, nextOffer, List.take_length]
-    rw [wsWrite_exp c w idx sub payload hidx hsub hill h1 h4 hnd hsz hexp]
+    rw [wsWrite_exp c w idx sub payload hidx hsub h1 h4 hnd hsz hexp]
     simp only [List.drop_length]
     unfold wsFeed
     simp only [List.isEmpty_nil, if_true]
     exact ⟨_, _, rfl, rfl, rfl, rfl⟩
   | cons k ks ih =>
-    intro fuel c w hill hnd hsz hexp hf
+    intro fuel c w hnd hsz hexp hf
     obtain ⟨f, rfl⟩ : ∃ f, fuel = f + 2 := ⟨fuel - 2, by omega⟩
     have hne : payload.isEmpty = false := by
       cases payload with
@@ -367,9 +367,9 @@ theorem wsFeed_exp (idx sub : Nat) (payload : Bytes) (hidx : idx < 65536) (hsub 
         simp only [wsWrite, hnd, Bool.false_eq_true, if_false, hexp, hsz, Option.getD_some, hlt, if_true]
       rw [hw]
       simp only [List.drop_zero, List.tail_cons]
-      exact ih (f + 1) c w hill hnd hsz hexp (by simp only [List.length_cons] at hf; omega)
+      exact ih (f + 1) c w hnd hsz hexp (by simp only [List.length_cons] at hf; omega)
     · have htk : payload.take (max k 1) = payload := List.take_of_length_le (by omega)
-      rw [htk, wsWrite_exp c w idx sub payload hidx hsub hill h1 h4 hnd hsz hexp]
+      rw [htk, wsWrite_exp c w idx sub payload hidx hsub h1 h4 hnd hsz hexp]
       simp only [List.drop_length]
       unfold wsFeed
       simp only [List.isEmpty_nil, if_true]
@@ -384,13 +384,13 @@ unfinished transfer) and every stale content of the client's response queue:
 
 * the call returns normally,
 * the server has committed exactly `payload` under exactly `(idx, sub)` — once — and holds it,
-* the server found **no illegal request frame** (see the file header for what it checks),
+* the server found **no illegal request frame** (see the file header for what it checks): its
+  illegality record is exactly what it was before the call (`none` stays `none`),
 * the server is idle again and its answer style is untouched. -/
 theorem download_delivers (c : Chan PS) (idx sub : Nat) (payload : Bytes) (sized force : Bool)
-    (offers : List Nat) (hidx : idx < 65536) (hsub : sub < 256) (hlen : payload.length < 2 ^ 32)
-    (hill : c.peer.1.illegal = none) :
+    (offers : List Nat) (hidx : idx < 65536) (hsub : sub < 256) (hlen : payload.length < 2 ^ 32) :
     ∃ c', download specPeer c idx sub payload sized force offers = (c', .ok ()) ∧
-      c'.peer.1.illegal = none ∧ c'.peer.1.phase = .idle ∧
+      c'.peer.1.illegal = c.peer.1.illegal ∧ c'.peer.1.phase = .idle ∧
       c'.peer.1.commits = c.peer.1.commits ++ [((idx, sub), payload)] ∧
       c'.peer.1.held = ((idx, sub), payload) :: c.peer.1.held ∧
       c'.peer.1.style = c.peer.1.style := by
@@ -401,7 +401,7 @@ theorem download_delivers (c : Chan PS) (idx sub : Nat) (payload : Bytes) (sized
   have hdecl : size = none ∨ size = some payload.length := by
     cases sized <;> simp at hsize <;> rw [← hsize] <;> simp
   by_cases hseg : isSegmented size force = true
-  · rw [wsInit_seg c idx sub size force hidx hsub hill hsz32 hseg]
+  · rw [wsInit_seg c idx sub size force hidx hsub hsz32 hseg]
     simp only []
     obtain ⟨c2, w2, hfeed, hi2, hm2, he2, hs2, hst2, hcase⟩ :=
       wsFeed_seg payload (idx, sub) size hdecl (2 * payload.length + offers.length + 2)
@@ -411,13 +411,13 @@ theorem download_delivers (c : Chan PS) (idx sub : Nat) (payload : Bytes) (sized
           sent := c.sent ++ [(REQUEST_DOWNLOAD ||| (if size.isSome then SIZE_SPECIFIED else 0)) ::
             (muxB idx sub ++ sizeField size)] }
         { size := size, pos := 0, toggle := 0, expHeader := none, done := false }
-        payload offers [] false rfl hill rfl rfl rfl rfl rfl rfl (by simp) (by omega)
+        payload offers [] false rfl rfl rfl rfl rfl rfl rfl (by simp) (by omega)
     rw [hfeed]
     simp only []
     rcases hcase with ⟨hd, hph, hco, hhe⟩ | ⟨hd, hco, hhe, tg', hph, htg⟩
     · simp only [wsClose, hd, Bool.not_true, Bool.false_and, Bool.false_eq_true, if_false]
       exact ⟨c2, rfl, hi2, hph, hco, hhe, hst2⟩
-    · obtain ⟨c3, hcl, hc3⟩ := wsClose_open c2 w2 size payload tg' hph hi2 he2 hd htg
+    · obtain ⟨c3, hcl, hc3⟩ := wsClose_open c2 w2 size payload tg' hph he2 hd htg
         (by intro d hd'; rcases hdecl with h | h <;> rw [h] at hd' <;> cases hd'; rfl)
       rw [hcl]
       simp only []
@@ -438,10 +438,10 @@ theorem download_delivers (c : Chan PS) (idx sub : Nat) (payload : Bytes) (sized
         { size := some payload.length, pos := 0, toggle := 0,
           expHeader := some ((REQUEST_DOWNLOAD ||| EXPEDITED ||| SIZE_SPECIFIED |||
             ((4 - payload.length) <<< 2)) :: muxB idx sub), done := false }
-        hill rfl rfl rfl (by omega)
+        rfl rfl rfl (by omega)
     rw [hfeed]
     simp only [wsClose, hd, Bool.not_true, Bool.false_and, Bool.false_eq_true, if_false]
-    refine ⟨c2, rfl, ?_, ?_, ?_, ?_, ?_⟩ <;> rw [hc2] <;> simp [hill]
+    refine ⟨c2, rfl, ?_, ?_, ?_, ?_, ?_⟩ <;> rw [hc2]
 
 /-! ## uploads -/
 
@@ -451,7 +451,7 @@ def expectedUpload (st : Style) (v : Bytes) : Bytes :=
   if st.expedited ∧ 1 ≤ v.length ∧ v.length ≤ 4 ∧ ¬ st.expSize then padTo 4 v else v
 
 theorem ss_upInit (s : SS) (idx sub : Nat) (v : Bytes) (hidx : idx < 65536) (hsub : sub < 256)
-    (hill : s.illegal = none) (hheld : heldLookup (idx, sub) s.held = some v) :
+    (hheld : heldLookup (idx, sub) s.held = some v) :
     ssStep s (REQUEST_UPLOAD :: (muxB idx sub ++ [0, 0, 0, 0])) =
       (if s.style.expedited ∧ 1 ≤ v.length ∧ v.length ≤ 4 then
         ({ s with phase := .idle, mux := (idx, sub) },
@@ -471,9 +471,9 @@ theorem ss_upInit (s : SS) (idx sub : Nat) (v : Bytes) (hidx : idx < 65536) (hsu
 
 /-- `ReadableStream.__init__` against the strict server holding `v` -/
 theorem rsInit_ok (c : Chan PS) (idx sub : Nat) (v : Bytes) (hidx : idx < 65536) (hsub : sub < 256)
-    (hlen : v.length < 2 ^ 32) (hill : c.peer.1.illegal = none)
+    (hlen : v.length < 2 ^ 32)
     (hheld : heldLookup (idx, sub) c.peer.1.held = some v) :
-    ∃ c' s, rsInit specPeer c idx sub = (c', .ok s) ∧ c'.peer.1.illegal = none ∧
+    ∃ c' s, rsInit specPeer c idx sub = (c', .ok s) ∧ c'.peer.1.illegal = c.peer.1.illegal ∧
       c'.peer.1.held = c.peer.1.held ∧ c'.peer.1.commits = c.peer.1.commits ∧
       c'.peer.1.style = c.peer.1.style ∧ s.done = false ∧
       ((c.peer.1.style.expedited ∧ 1 ≤ v.length ∧ v.length ≤ 4 ∧
@@ -482,7 +482,7 @@ theorem rsInit_ok (c : Chan PS) (idx sub : Nat) (v : Bytes) (hidx : idx < 65536)
        (¬ (c.peer.1.style.expedited ∧ 1 ≤ v.length ∧ v.length ≤ 4) ∧ s.expData = none ∧ s.toggle = tb false ∧
           c'.peer.1.phase = .up v false c.peer.1.style.cuts ∧
           s.size = (if c.peer.1.style.sizeIndicated then some v.length else none))) := by
-  have hstep := ss_upInit c.peer.1 idx sub v hidx hsub hill hheld
+  have hstep := ss_upInit c.peer.1 idx sub v hidx hsub hheld
   have hsub' : sub % 256 = sub := Nat.mod_eq_of_lt hsub
   have hmux : idx % 256 + 256 * (idx / 256 % 256) = idx := by omega
   obtain ⟨u1, u2, u3, u4⟩ := upInitResp_fields
@@ -501,7 +501,7 @@ theorem rsInit_ok (c : Chan PS) (idx sub : Nat) (v : Bytes) (hidx : idx < 65536)
         not_false_eq_true, if_true, a4, a5, List.getD_cons_succ, List.getD_cons_zero, hmux, hsub',
         List.cons_append, List.nil_append, List.drop_succ_cons, List.drop_zero, not_or, and_self,
         List.take_of_length_le (Nat.le_of_eq hpl), padTo_take']
-      refine ⟨_, _, rfl, hill, rfl, rfl, rfl, rfl, Or.inl ⟨hexp.1, hexp.2.1, hexp.2.2, ?_, rfl, ?_⟩⟩
+      refine ⟨_, _, rfl, rfl, rfl, rfl, rfl, rfl, Or.inl ⟨hexp.1, hexp.2.1, hexp.2.2, ?_, rfl, ?_⟩⟩
       · simp [expectedUpload, hes]
       · simp [hes]
     · have hes' : c.peer.1.style.expSize = false := by simpa using hes
@@ -515,7 +515,7 @@ theorem rsInit_ok (c : Chan PS) (idx sub : Nat) (v : Bytes) (hidx : idx < 65536)
         not_false_eq_true, if_true, a4, List.getD_cons_succ, List.getD_cons_zero, hmux, hsub',
         List.cons_append, List.nil_append, List.drop_succ_cons, List.drop_zero, not_or, and_self,
         List.take_of_length_le (Nat.le_of_eq hpl)]
-      refine ⟨_, _, rfl, hill, rfl, rfl, rfl, rfl, Or.inl ⟨hexp.1, hexp.2.1, hexp.2.2, ?_, rfl, ?_⟩⟩
+      refine ⟨_, _, rfl, rfl, rfl, rfl, rfl, rfl, Or.inl ⟨hexp.1, hexp.2.1, hexp.2.2, ?_, rfl, ?_⟩⟩
       · simp [expectedUpload, hes', hexp]
       · simp [hes']
   · rw [if_neg hexp] at hstep
@@ -531,7 +531,7 @@ theorem rsInit_ok (c : Chan PS) (idx sub : Nat) (v : Bytes) (hidx : idx < 65536)
         not_false_eq_true, if_true, a4, List.getD_cons_succ, List.getD_cons_zero, hmux, hsub',
         List.cons_append, List.nil_append, List.drop_succ_cons, List.drop_zero, not_or, and_self,
         List.take_of_length_le (Nat.le_of_eq (leBytes_length 4 v.length)), hv]
-      exact ⟨_, _, rfl, hill, rfl, rfl, rfl, rfl, Or.inr ⟨hexp, rfl, rfl, rfl, by simp [hsi]⟩⟩
+      exact ⟨_, _, rfl, rfl, rfl, rfl, rfl, rfl, Or.inr ⟨hexp, rfl, rfl, rfl, by simp [hsi]⟩⟩
     · have hsi' : c.peer.1.style.sizeIndicated = false := by simpa using hsi
       simp only [hsi', Bool.false_eq_true, if_false] at hstep
       obtain ⟨a1, a2, a3, a4⟩ := u4
@@ -541,7 +541,7 @@ theorem rsInit_ok (c : Chan PS) (idx sub : Nat) (v : Bytes) (hidx : idx < 65536)
         show ¬ (1 + 1 + 1 + (0 + 1 + 1 + 1 + 1) + 1 < 4) from by omega, if_false, a2, ne_eq, not_true_eq_false, a3,
         not_false_eq_true, if_true, a4, List.getD_cons_succ, List.getD_cons_zero, hmux, hsub',
         List.cons_append, List.nil_append, not_or, and_self]
-      exact ⟨_, _, rfl, hill, rfl, rfl, rfl, rfl, Or.inr ⟨hexp, rfl, rfl, rfl, by simp [hsi']⟩⟩
+      exact ⟨_, _, rfl, rfl, rfl, rfl, rfl, rfl, Or.inr ⟨hexp, rfl, rfl, rfl, by simp [hsi']⟩⟩
 
 /-- phase of the strict server after one upload segment -/
 def nextUpPhase (rest : Bytes) (tg : Bool) (cuts : List Nat) : Phase :=
@@ -550,7 +550,7 @@ def nextUpPhase (rest : Bytes) (tg : Bool) (cuts : List Nat) : Phase :=
 
 /-- the strict server on the client's upload segment request -/
 theorem ss_upSeg (s : SS) (rest : Bytes) (tg : Bool) (cuts : List Nat)
-    (hph : s.phase = .up rest tg cuts) (hill : s.illegal = none) :
+    (hph : s.phase = .up rest tg cuts) :
     ssStep s ((REQUEST_SEGMENT_UPLOAD ||| tb tg) :: List.replicate 7 0) =
       ({ s with phase := nextUpPhase rest tg cuts },
        [(0x00 + tb tg + (7 - (rest.take (clampCut (cuts.headD 7))).length) * 2 +
@@ -564,7 +564,7 @@ theorem ss_upSeg (s : SS) (rest : Bytes) (tg : Bool) (cuts : List Nat)
 
 /-- one raw `read()` of a segmented upload against the strict server -/
 theorem rsRead_seg (c : Chan PS) (s : RS) (rest : Bytes) (tg : Bool) (cuts : List Nat)
-    (hph : c.peer.1.phase = .up rest tg cuts) (hill : c.peer.1.illegal = none)
+    (hph : c.peer.1.phase = .up rest tg cuts)
     (hnd : s.done = false) (hexp : s.expData = none) (htg : s.toggle = tb tg) :
     rsRead specPeer c s =
         ({ peer := ({ c.peer.1 with phase := nextUpPhase rest tg cuts },
@@ -576,7 +576,7 @@ theorem rsRead_seg (c : Chan PS) (s : RS) (rest : Bytes) (tg : Bool) (cuts : Lis
          .ok ({ s with done := (rest.drop (clampCut (cuts.headD 7))).isEmpty, toggle := tb (!tg),
                            pos := s.pos + (rest.take (clampCut (cuts.headD 7))).length },
                   rest.take (clampCut (cuts.headD 7)))) := by
-  have hstep := ss_upSeg c.peer.1 rest tg cuts hph hill
+  have hstep := ss_upSeg c.peer.1 rest tg cuts hph
   have hk : clampCut (cuts.headD 7) ≤ 7 := by simp only [clampCut]; omega
   have hl7 : (rest.take (clampCut (cuts.headD 7))).length ≤ 7 := by
     simp only [List.length_take]; omega
@@ -599,22 +599,22 @@ theorem rsRead_seg (c : Chan PS) (s : RS) (rest : Bytes) (tg : Bool) (cuts : Lis
 /-- `readall()` over a segmented upload: the concatenation of the segments is the held value -/
 theorem rsReadAll_seg (v : Bytes) :
     ∀ (fuel : Nat) (c : Chan PS) (s : RS) (acc rest : Bytes) (tg : Bool) (cuts : List Nat),
-      c.peer.1.phase = .up rest tg cuts → c.peer.1.illegal = none → s.done = false → s.expData = none →
+      c.peer.1.phase = .up rest tg cuts → s.done = false → s.expData = none →
       s.toggle = tb tg → acc ++ rest = v → rest.length + 2 ≤ fuel →
-      ∃ c' s', rsReadAll specPeer fuel c s acc = (c', .ok (s', v)) ∧ c'.peer.1.illegal = none ∧
+      ∃ c' s', rsReadAll specPeer fuel c s acc = (c', .ok (s', v)) ∧ c'.peer.1.illegal = c.peer.1.illegal ∧
         c'.peer.1.phase = .idle ∧ c'.peer.1.held = c.peer.1.held ∧ c'.peer.1.commits = c.peer.1.commits ∧
         c'.peer.1.style = c.peer.1.style := by
   intro fuel
   induction fuel with
-  | zero => intro c s acc rest tg cuts _ _ _ _ _ _ hf; omega
+  | zero => intro c s acc rest tg cuts _ _ _ _ _ hf; omega
   | succ fuel ih =>
-    intro c s acc rest tg cuts hph hill hnd hexp htg hacc hf
+    intro c s acc rest tg cuts hph hnd hexp htg hacc hf
     obtain ⟨c1, hread, hc1⟩ : ∃ c1, rsRead specPeer c s =
         (c1, .ok ({ s with done := (rest.drop (clampCut (cuts.headD 7))).isEmpty, toggle := tb (!tg),
                            pos := s.pos + (rest.take (clampCut (cuts.headD 7))).length },
                   rest.take (clampCut (cuts.headD 7)))) ∧
         c1.peer.1 = { c.peer.1 with phase := nextUpPhase rest tg cuts } :=
-      ⟨_, rsRead_seg c s rest tg cuts hph hill hnd hexp htg, rfl⟩
+      ⟨_, rsRead_seg c s rest tg cuts hph hnd hexp htg, rfl⟩
     have hk1 : 1 ≤ clampCut (cuts.headD 7) := by simp only [clampCut]; omega
     simp only [nextUpPhase] at hc1
     unfold rsReadAll
@@ -627,7 +627,7 @@ theorem rsReadAll_seg (v : Bytes) :
       simp only [List.take_nil, List.isEmpty_nil, if_true]
       simp only [List.append_nil] at hacc
       subst hacc
-      refine ⟨c1, _, rfl, ?_, ?_, ?_, ?_, ?_⟩ <;> rw [hc1] <;> simp [hill]
+      refine ⟨c1, _, rfl, ?_, ?_, ?_, ?_, ?_⟩ <;> rw [hc1] <;> simp
     · have hrl : 1 ≤ rest.length := by
         cases rest with
         | nil => exact absurd rfl hre
@@ -650,7 +650,7 @@ theorem rsReadAll_seg (v : Bytes) :
         | succ f =>
           unfold rsReadAll
           simp only [rsRead, hlast, if_true, List.isEmpty_nil, htake, hacc]
-          refine ⟨c1, _, rfl, ?_, ?_, ?_, ?_, ?_⟩ <;> rw [hc1] <;> simp only [hill, hlast, if_true]
+          refine ⟨c1, _, rfl, ?_, ?_, ?_, ?_, ?_⟩ <;> rw [hc1] <;> simp only [hlast, if_true]
       · have hl' : (rest.drop k).isEmpty = false := by simpa using hlast
         have hklt : k < rest.length := by
           by_cases h : k < rest.length
@@ -662,11 +662,11 @@ theorem rsReadAll_seg (v : Bytes) :
         have := ih c1 { s with done := (rest.drop k).isEmpty, toggle := tb (!tg),
                                pos := s.pos + (rest.take k).length }
           (acc ++ rest.take k) (rest.drop k) (!tg) cuts.tail
-          hph1 (by rw [hc1]; exact hill) hl' hexp rfl
+          hph1 hl' hexp rfl
           (by rw [List.append_assoc, List.take_append_drop]; exact hacc)
           (by simp only [List.length_drop]; omega)
         obtain ⟨c', s', hr, h1, h2, h3, h4, h5⟩ := this
-        refine ⟨c', s', hr, h1, h2, ?_, ?_, ?_⟩
+        refine ⟨c', s', hr, by rw [h1, hc1], h2, ?_, ?_, ?_⟩
         · rw [h3, hc1]
         · rw [h4, hc1]
         · rw [h5, hc1]
@@ -682,13 +682,13 @@ server state without an illegal frame and every stale queue content: the call re
 and holds what it held. -/
 theorem upload_returns (c : Chan PS) (idx sub : Nat) (v : Bytes) (odType : Option (Option Nat)) (fuel : Nat)
     (hidx : idx < 65536) (hsub : sub < 256) (hlen : v.length < 2 ^ 32) (hfuel : v.length + 2 ≤ fuel)
-    (hill : c.peer.1.illegal = none) (hheld : heldLookup (idx, sub) c.peer.1.held = some v) :
+    (hheld : heldLookup (idx, sub) c.peer.1.held = some v) :
     ∃ c' respSize, upload specPeer c idx sub odType fuel =
         (c', .ok (truncate odType respSize (expectedUpload c.peer.1.style v))) ∧
       (respSize = none ∨ respSize = some v.length) ∧
-      c'.peer.1.illegal = none ∧ c'.peer.1.phase = .idle ∧ c'.peer.1.held = c.peer.1.held ∧
+      c'.peer.1.illegal = c.peer.1.illegal ∧ c'.peer.1.phase = .idle ∧ c'.peer.1.held = c.peer.1.held ∧
       c'.peer.1.commits = c.peer.1.commits ∧ c'.peer.1.style = c.peer.1.style := by
-  obtain ⟨c1, s, hinit, hi1, hh1, hc1, hs1, hnd, hcase⟩ := rsInit_ok c idx sub v hidx hsub hlen hill hheld
+  obtain ⟨c1, s, hinit, hi1, hh1, hc1, hs1, hnd, hcase⟩ := rsInit_ok c idx sub v hidx hsub hlen hheld
   unfold upload
   rw [hinit]
   simp only []
@@ -698,7 +698,7 @@ theorem upload_returns (c : Chan PS) (idx sub : Nat) (v : Bytes) (odType : Optio
     rw [hsz]; split <;> simp
   · simp only [hexp]
     obtain ⟨c2, s2, hall, hi2, hp2, hh2, hc2, hs2⟩ :=
-      rsReadAll_seg v fuel c1 s [] v false c.peer.1.style.cuts hph hi1 hnd hexp htg rfl hfuel
+      rsReadAll_seg v fuel c1 s [] v false c.peer.1.style.cuts hph hnd hexp htg rfl hfuel
     rw [hall]
     simp only []
     have hexpd : expectedUpload c.peer.1.style v = v := by
@@ -707,7 +707,7 @@ theorem upload_returns (c : Chan PS) (idx sub : Nat) (v : Bytes) (odType : Optio
       intro h
       exact hne ⟨h.1, h.2.1, h.2.2.1⟩
     rw [hexpd]
-    refine ⟨c2, s.size, rfl, ?_, hi2, hp2, by rw [hh2, hh1], by rw [hc2, hc1], by rw [hs2, hs1]⟩
+    refine ⟨c2, s.size, rfl, ?_, by rw [hi2, hi1], hp2, by rw [hh2, hh1], by rw [hc2, hc1], by rw [hs2, hs1]⟩
     rw [hsz]; split <;> simp
 
 /-- **Fixed-size entries get exactly the declared number of leading bytes; everything else is
@@ -769,10 +769,10 @@ def specXfers (st : Style) : List ((Nat × Nat) × Bytes) → List Xfer → List
 
 /-- an upload of something the server does not hold is refused (0x06020000) and changes nothing -/
 theorem upload_missing (c : Chan PS) (idx sub : Nat) (odType : Option (Option Nat)) (fuel : Nat)
-    (hidx : idx < 65536) (hsub : sub < 256) (hill : c.peer.1.illegal = none)
+    (hidx : idx < 65536) (hsub : sub < 256)
     (hheld : heldLookup (idx, sub) c.peer.1.held = none) :
     ∃ c' e, upload specPeer c idx sub odType fuel = (c', .error e) ∧
-      c'.peer.1.illegal = none ∧ c'.peer.1.held = c.peer.1.held ∧
+      c'.peer.1.illegal = c.peer.1.illegal ∧ c'.peer.1.held = c.peer.1.held ∧
       c'.peer.1.commits = c.peer.1.commits ∧ c'.peer.1.style = c.peer.1.style := by
   obtain ⟨m1, m2, m3, m4⟩ := muxB_getD idx sub REQUEST_UPLOAD [0, 0, 0, 0] hidx hsub
   obtain ⟨f1, f2⟩ := upReq_fields.1
@@ -787,7 +787,7 @@ theorem upload_missing (c : Chan PS) (idx sub : Nat) (odType : Option (Option Na
   simp only [hstep, List.nil_append]
   simp only [abortResp, decodeResponse, List.cons_append, RESPONSE_ABORTED, if_true, List.length_cons,
     List.length_append, leBytes_length, List.length_nil]
-  exact ⟨_, _, rfl, hill, rfl, rfl, rfl⟩
+  exact ⟨_, _, rfl, rfl, rfl, rfl, rfl⟩
 
 /-- every held value is shorter than 2³² bytes (what the size field can announce) -/
 def HeldBounded (held : List ((Nat × Nat) × Bytes)) : Prop :=
@@ -815,7 +815,7 @@ theorem back_to_back (xs : List Xfer) :
     cases x with
     | down i j p sz f o =>
       obtain ⟨hi, hj, hp⟩ := hx
-      obtain ⟨c', hd, hi', _, hc', hh', hs'⟩ := download_delivers c i j p sz f o hi hj hp hill
+      obtain ⟨c', hd, hi', _, hc', hh', hs'⟩ := download_delivers c i j p sz f o hi hj hp
       have hb' : HeldBounded c'.peer.1.held := by
         intro k v hk
         rw [hh'] at hk
@@ -823,7 +823,7 @@ theorem back_to_back (xs : List Xfer) :
         split at hk
         · cases hk; exact hp
         · exact hb k v hk
-      obtain ⟨r1, r2, r3⟩ := ih c' (acc ++ [some []]) hrest hi' hb'
+      obtain ⟨r1, r2, r3⟩ := ih c' (acc ++ [some []]) hrest (by rw [hi']; exact hill) hb'
       simp only [runXfers, hd, specXfers]
       rw [hs', hh'] at r1 r2
       refine ⟨?_, ?_, r3⟩
@@ -833,8 +833,8 @@ theorem back_to_back (xs : List Xfer) :
       obtain ⟨hi, hj⟩ := hx
       cases hh : heldLookup (i, j) c.peer.1.held with
       | none =>
-        obtain ⟨c', e, hu, hi', hh', hc', hs'⟩ := upload_missing c i j none 1000000000000 hi hj hill hh
-        obtain ⟨r1, r2, r3⟩ := ih c' (acc ++ [none]) hrest hi' (by rw [hh']; exact hb)
+        obtain ⟨c', e, hu, hi', hh', hc', hs'⟩ := upload_missing c i j none 1000000000000 hi hj hh
+        obtain ⟨r1, r2, r3⟩ := ih c' (acc ++ [none]) hrest (by rw [hi']; exact hill) (by rw [hh']; exact hb)
         simp only [runXfers, hu, specXfers, hh]
         rw [hs', hh'] at r1 r2
         refine ⟨?_, ?_, r3⟩
@@ -843,9 +843,9 @@ theorem back_to_back (xs : List Xfer) :
       | some v =>
         have hv := hb _ _ hh
         obtain ⟨c', rs, hu, _, hi', _, hh', hc', hs'⟩ :=
-          upload_returns c i j v none 1000000000000 hi hj hv (by omega) hill hh
-        obtain ⟨r1, r2, r3⟩ := ih c' (acc ++ [some (expectedUpload c.peer.1.style v)]) hrest hi'
-          (by rw [hh']; exact hb)
+          upload_returns c i j v none 1000000000000 hi hj hv (by omega) hh
+        obtain ⟨r1, r2, r3⟩ := ih c' (acc ++ [some (expectedUpload c.peer.1.style v)]) hrest
+          (by rw [hi']; exact hill) (by rw [hh']; exact hb)
         simp only [runXfers, hu, specXfers, hh, truncate]
         rw [hs', hh'] at r1 r2
         refine ⟨?_, ?_, r3⟩
@@ -873,8 +873,8 @@ theorem download_frames_legal (c : Chan PS) (idx sub : Nat) (payload : Bytes) (s
     (hill : c.peer.1.illegal = none) :
     ∃ c', download specPeer c idx sub payload sized force offers = (c', .ok ()) ∧
       c'.peer.1.illegal = none := by
-  obtain ⟨c', h1, h2, _⟩ := download_delivers c idx sub payload sized force offers hidx hsub hlen hill
-  exact ⟨c', h1, h2⟩
+  obtain ⟨c', h1, h2, _⟩ := download_delivers c idx sub payload sized force offers hidx hsub hlen
+  exact ⟨c', h1, by rw [h2]; exact hill⟩
 
 /-! ### the strict server is strict (non-vacuity of "no illegal frame") -/
 
@@ -902,7 +902,7 @@ example : (ssStep (ssStep st0 [0x21, 0, 0x20, 0, 2, 0, 0, 0]).1 [0x0B, 1, 2, 0, 
 example : ∃ c', download specPeer ⟨(st0, []), [[1, 2, 3]], []⟩ 0x2000 0 [1, 2, 3, 4, 5, 6, 7, 8, 9] true false [2, 9] =
     (c', .ok ()) ∧ c'.peer.1.commits = [((0x2000, 0), [1, 2, 3, 4, 5, 6, 7, 8, 9])] := by
   obtain ⟨c', h, _, _, hc, _⟩ := download_delivers ⟨(st0, []), [[1, 2, 3]], []⟩ 0x2000 0
-    [1, 2, 3, 4, 5, 6, 7, 8, 9] true false [2, 9] (by decide) (by decide) (by decide) rfl
+    [1, 2, 3, 4, 5, 6, 7, 8, 9] true false [2, 9] (by decide) (by decide) (by decide)
   exact ⟨c', h, hc⟩
 
 end Canopen.C01
